@@ -78,9 +78,11 @@ Definition dtype (d : dict) : option bytes :=
 Definition is_page (d : dict) : bool :=
   match dtype d with Some s => beqb s kPage | None => false end.
 
-(* the xref table: in-use entries.  FValid / FInvalid: XRefTableEntry.Valid (set by validation);
-   FLazy: entry.Object is still an undecoded types.LazyObjectStreamObject (obj = what it decodes to) *)
-Inductive eflag := FValid | FInvalid | FLazy.
+(* the xref table: in-use entries.  FValid / FInvalid: XRefTableEntry.Valid (set by validation).
+   An entry that is still an undecoded types.LazyObjectStreamObject is decoded by
+   writeIndirectObject (ctx.Dereference) before it is written, so it appears here as the object
+   it decodes to (never validated: FInvalid). *)
+Inductive eflag := FValid | FInvalid.
 Definition graph := list (N * (eflag * obj)).
 Fixpoint lookup (g : graph) (n : N) : option (eflag * obj) :=
   match g with
@@ -91,7 +93,7 @@ Fixpoint lookup (g : graph) (n : N) : option (eflag * obj) :=
 (* How a record was written (ghost information for the proofs; the real writer does not
    record it): generically by writeIndirectObject with the flags ctx.WritingPages / ctx.Dest
    as they were when the object was reached, as the catalog, as a page tree node, as a page. *)
-Inductive mode := MGen (wp dest : bool) | MRoot | MPages | MPage | MLazy.
+Inductive mode := MGen (wp dest : bool) | MRoot | MPages | MPage.
 
 (* emitted records, most recent first: ctx.Write.Table (which numbers have a write offset)
    together with what was printed for the number *)
@@ -154,9 +156,7 @@ Section Graph.
      - already has a write offset: nothing;
      - missing / free entry or a nil object: "null" is written under the number;
      - a page dict whose entry is not marked Valid: nothing is written (writeDeepDict);
-     - entry.Object is itself an IndirectRef: error;
-     - an undecoded object stream member: its bytes are copied, nothing it references is
-       followed (writeLazyObjectStreamObject). *)
+     - entry.Object is itself an IndirectRef: error. *)
   Fixpoint visit (fuel : nat) (wp dest : bool) (n : N) (s : st) : wres :=
     if written s n then WOk s else
     match fuel with
@@ -164,7 +164,6 @@ Section Graph.
     | S f =>
       match lookup g n with
       | None => WOk ((n, (MGen wp dest, ONull)) :: s)
-      | Some (FLazy, o) => WOk ((n, (MLazy, o)) :: s)
       | Some (fl, o) =>
         match o with
         | ORef _ => WFail
@@ -359,7 +358,7 @@ Definition followed (r : mode * obj) : list N :=
   | (MRoot, ODict d) => wrefs_entries false d root_keys_pre ++ pages_ref d ++ wrefs_entries false d root_keys_post
   | (MPages, ODict d) => kids_refs d ++ wrefs_entries false d pages_keys
   | (MPage, ODict d) => wrefs_entries true d page_keys
-  | _ => []                                   (* MLazy: nothing *)
+  | _ => []
   end.
 
 Definition memN (n : N) (l : list N) : bool := existsb (N.eqb n) l.
